@@ -129,9 +129,22 @@ type stackTransport struct {
 	reqCtx     context.Context
 	mutate     func(*http.Response)
 	bodyCloses *int
+	reqBody    []byte
 	catchPanic bool
 	panicked   bool
 	panicVal   any
+}
+
+// teeBody records the request bytes the handler consumed.
+type teeBody struct {
+	io.ReadCloser
+	t *stackTransport
+}
+
+func (b *teeBody) Read(p []byte) (int, error) {
+	n, err := b.ReadCloser.Read(p)
+	b.t.reqBody = append(b.t.reqBody, p[:n]...)
+	return n, err
 }
 
 type countingBody struct {
@@ -159,7 +172,7 @@ func (t *stackTransport) Do(req *http.Request) (*http.Response, error) {
 		Proto:      "HTTP/x",
 		ProtoMajor: major,
 		Header:     req.Header.Clone(),
-		Body:       req.Body,
+		Body:       &teeBody{ReadCloser: req.Body, t: t},
 	}
 	if t.reqCtx != nil {
 		sreq = sreq.WithContext(t.reqCtx)
